@@ -52,6 +52,7 @@ type LeafEv struct {
 	Conc     int      `json:"conc"`  // 1: a call made concurrently with others under real randomness (no draws recorded)
 	Cfg      int      `json:"cfg"`   // 1: the process-wide limits were not the configured ones at some draw of this run, or after it
 	PathProd []int    `json:"pp"`    // product of the bounds of ALL draws of this run, as limbs: the run's own probability is 1/pp
+	PPC      int      `json:"ppc"`   // 1: the path-mass rule is evaluated for this run (the first two runs of every cell: a log2 bracket per run is costly)
 }
 
 type CellEv struct {
@@ -221,6 +222,9 @@ func charCellEvents(id int, sc Scenario, seed int64, rp *spg.CharRecipe) (events
 		}
 		ev.ND = len(ev.D)
 		ev.PathProd = Limbs(prod)
+		if len(leaves) < 2 {
+			ev.PPC = 1
+		}
 		if out.CfgTouched {
 			ev.Cfg = 1
 		}
